@@ -235,4 +235,101 @@ CheckRank(D, docs, e, l, scn) ==
        THEN Tell("DEV", e.prop, l, scn, e, "only documents containing a scored term are candidates", "S07a")
      ELSE Tell("FAIL", e.prop, l, scn, e, "a matching document that belongs in the result is missing", "")
 
+-----------------------------------------------------------------------------
+(* C11: a cursor walk.  pages = the responses obtained by following        *)
+(* next_cursor from the first page; full = one request whose limit covers  *)
+(* all matches.                                                            *)
+RECURSIVE Concat(_, _)
+Concat(pages, field) ==
+  IF pages = <<>> THEN <<>> ELSE Head(pages)[field] \o Concat(Tail(pages), field)
+
+CheckPaging(D, docs, e, l, scn) ==
+  IF ~UnderCaps(D, docs, e.q) THEN TRUE
+  ELSE
+  LET ideal == Cardinality(Expected(D, docs, e.q, e.filters))
+      built == Cardinality(ExpectedAsBuilt(D, docs, e.q, e.filters))
+      n == Len(e.pages)
+      allOk == e.full.ok /\ \A i \in 1..n : e.pages[i].ok
+      cursorsOk == /\ \A i \in 1..(n - 1) : e.pages[i].hascursor
+                   /\ ~e.pages[n].hascursor
+      sizesOk == /\ \A i \in 1..(n - 1) : Len(e.pages[i].ids) = e.psize
+                 /\ Len(e.pages[n].ids) <= e.psize
+                 /\ (n > 1 => Len(e.pages[n].ids) > 0)
+      totalsBound == \A i \in 1..n : e.pages[i].total <= ideal
+      exhaustive == e.exec = "bm25" \/ ScoredTerms(D, docs, e.q) = {}
+      totalsExact == exhaustive => \A i \in 1..n : e.pages[i].total \in {ideal, built}
+  IN IF ~allOk THEN Tell("FAIL", e.prop, l, scn, e, "a page of the walk (or the covering request) returned an error", "")
+     ELSE IF e.guard THEN Tell("FAIL", e.prop, l, scn, e, "the walk does not terminate", "")
+     ELSE IF Concat(e.pages, "ids") # e.full.ids
+       THEN Tell("FAIL", e.prop, l, scn, e, "pages concatenated differ from the single covering request (missing, duplicated or reordered hits)", "")
+     ELSE IF Concat(e.pages, "sbits") # e.full.sbits
+       THEN Tell("FAIL", e.prop, l, scn, e, "scores differ between the walk and the single request", "")
+     ELSE IF ~(cursorsOk /\ sizesOk)
+       THEN Tell("FAIL", e.prop, l, scn, e, "next_cursor is not absent exactly on the last page / short page inside the walk", "")
+     ELSE IF ~totalsBound
+       THEN Tell("FAIL", e.prop, l, scn, e, "total_hits_estimate exceeds the number of matching documents", "")
+     ELSE IF ~totalsExact
+       THEN Tell("FAIL", e.prop, l, scn, e, "total_hits_estimate is not exact under exhaustive execution", "")
+     ELSE IF exhaustive /\ ideal # built /\ \E i \in 1..n : e.pages[i].total = built
+       THEN Tell("DEV", e.prop, l, scn, e, "only documents containing a scored term are candidates", "S07a")
+     ELSE TRUE
+
+(* a cursor presented to another sort order or another index generation    *)
+CheckStale(e, l, scn) ==
+  IF e.ok THEN Tell("FAIL", e.prop, l, scn, e, "a stale cursor was accepted", "") ELSE TRUE
+
+(* relational checks.  Scores of one document may differ in the last bits   *)
+(* between strategies (f32 sums in another order), so rankings are compared *)
+(* with a bit tolerance and a position may differ inside a run of near-ties.*)
+AbsI(x) == IF x >= 0 THEN x ELSE 0 - x
+CloseBits(a, b) == AbsI(a - b) <= 64
+
+SameRanking(o1, o2) ==
+  /\ o1.ok = o2.ok
+  /\ Len(o1.ids) = Len(o2.ids)
+  /\ \A i \in DOMAIN o1.ids :
+        /\ CloseBits(o1.sbits[i], o2.sbits[i])
+        /\ \/ o1.ids[i] = o2.ids[i]
+           \/ \E j \in {i - 1, i + 1} \cap DOMAIN o1.ids : CloseBits(o1.sbits[i], o1.sbits[j])
+
+(* C09: every execution strategy / block size returns the ranking of bm25  *)
+CheckSame09(e, l, scn) ==
+  LET first == e.variants[1].obs
+      bad == {i \in DOMAIN e.variants : ~SameRanking(first, e.variants[i].obs)}
+  IN IF bad # {}
+       THEN Tell("FAIL", e.prop, l, scn, e, "pruned execution differs from exhaustive bm25", e.variants[CHOOSE i \in bad : TRUE].label)
+     ELSE TRUE
+
+(* C20: explain / profile change nothing.  Known finding S20a: with a sort  *)
+(* plan without _score the engine skips scoring (hit scores 0) unless       *)
+(* explain is on, so explain changes the reported scores.                   *)
+CheckSame20(e, l, scn) ==
+  LET first == e.variants[1].obs                       \* explain = false, profile = false
+      P(o) == [f \in {"ok", "ids", "cursor", "aggs"} |-> o[f]]
+      otherBad == {i \in DOMAIN e.variants : P(e.variants[i].obs) # P(first)}
+      totalBad == {i \in DOMAIN e.variants : e.variants[i].obs.total # first.total}
+      (* S20b: explain installs a score hook, which switches pruning off, so the    *)
+      (* estimate of a pruned execution grows when explain is on                    *)
+      s20b == /\ e.exec # "bm25"
+              /\ \A i \in totalBad : e.variants[i].explain /\ e.variants[i].obs.total > first.total
+      scoreBad == {i \in DOMAIN e.variants : e.variants[i].obs.sbits # first.sbits}
+      finalsBad == {i \in DOMAIN e.variants :
+                      e.variants[i].obs.ok /\ e.variants[i].explain /\ e.variants[i].obs.finals # e.variants[i].obs.sbits}
+      s20a == /\ ~UsesScore(e.sort)
+              /\ \A i \in DOMAIN first.sbits : first.sbits[i] = 0
+              /\ \A i \in scoreBad : e.variants[i].explain
+              /\ \A i \in DOMAIN e.variants : ~e.variants[i].explain => i \notin scoreBad
+  IN IF otherBad # {}
+       THEN Tell("FAIL", e.prop, l, scn, e, "explain/profile changed hits, totals, cursor or aggregations", e.variants[CHOOSE i \in otherBad : TRUE].label)
+     ELSE IF finalsBad # {}
+       THEN Tell("FAIL", e.prop, l, scn, e, "an explanation's final score differs from its hit's score", "")
+     ELSE IF scoreBad # {} /\ ~s20a
+       THEN Tell("FAIL", e.prop, l, scn, e, "explain/profile changed scores", e.variants[CHOOSE i \in scoreBad : TRUE].label)
+     ELSE IF totalBad # {} /\ ~s20b
+       THEN Tell("FAIL", e.prop, l, scn, e, "explain/profile changed total_hits_estimate", e.variants[CHOOSE i \in totalBad : TRUE].label)
+     ELSE /\ (scoreBad # {}) => Tell("DEV", e.prop, l, scn, e, "explain turns scoring on for a sort plan without _score", "S20a")
+          /\ (totalBad # {}) => Tell("DEV", e.prop, l, scn, e, "explain switches pruning off, so the total of a pruned execution grows", "S20b")
+
+CheckSame(e, l, scn) == IF e.prop = "C09" THEN CheckSame09(e, l, scn) ELSE CheckSame20(e, l, scn)
+
 =============================================================================
